@@ -24,11 +24,12 @@ from .terms import Atoms, Rat
 
 
 class Cell:
-    __slots__ = ("v", "name")
+    __slots__ = ("v", "name", "base")
 
-    def __init__(self, v: Rat, name: str = "") -> None:
+    def __init__(self, v: Rat, name: str = "", base: "Cell | None" = None) -> None:
         self.v = v
         self.name = name
+        self.base = base  # the tensor this one is a view of (element / slice): an in-place update writes through
 
     def __repr__(self) -> str:
         return f"Cell({self.v})"
@@ -132,6 +133,12 @@ class Shadow:
             new = self.binop(st.op, cur, rhs)
             if isinstance(cur, Cell):
                 cur.v = self.rat(new)  # tensors: `L += x` is in place
+                b = cur.base
+                k = 0
+                while b is not None:  # ... and writes through to whatever it is a view of: that tensor's value is no longer known
+                    k += 1
+                    b.v = Rat.app(self.atoms, "written-through-a-view", (b.v, self.rat(new)))
+                    b = b.base
             else:
                 self.assign(st.target, new, fr, fi)
         elif isinstance(st, ast.If):
@@ -284,6 +291,11 @@ class Shadow:
                 return Cell(Rat.app(self.atoms, "transpose", (base.v,)))
             if isinstance(base, Cell) and e.attr in ("shape", "dtype", "device", "ndim"):
                 return "<tensor-meta>"
+            # anything else read off a number / tensor: an uninterpreted function of it (can only match itself)
+            if isinstance(base, Cell):
+                return Cell(Rat.app(self.atoms, f"attr:{e.attr}", (base.v,)), base=base)
+            if isinstance(base, (Rat, int, float, Fraction)) and not isinstance(base, bool):
+                return Rat.app(self.atoms, f"attr:{e.attr}", (self.rat(base),))
             raise Unsupported(f"attribute {ast.unparse(e)[:50]}")
         if isinstance(e, ast.Subscript):
             nm, key = A.subscript_key(self.repo, fi.module, e)
@@ -300,6 +312,8 @@ class Shadow:
                 return base[e.slice.value]
             if isinstance(base, str):
                 return base
+            if isinstance(base, Cell):  # element / slice of a tensor: an uninterpreted view of it
+                return Cell(Rat.app(self.atoms, f"index[{ast.unparse(e.slice)[:30]}]", (base.v,)), base=base)
             raise Unsupported(f"subscript {ast.unparse(e)[:50]}")
         if isinstance(e, ast.BinOp):
             return self.binop(e.op, self.ev(e.left, fr, fi), self.ev(e.right, fr, fi))
